@@ -164,10 +164,14 @@ def d_forall_arr(ndim):
                 pe = kwd.value
                 pl = pe.elts if isinstance(pe, ast.Tuple) else [pe]
                 terms = []
+                extra = []
                 for p in pl:
                     v = fv.ev(p, s, False)
                     terms.append(v.e if isinstance(v, (SInt, SBool)) else v.v)
+                    if isinstance(v, SFloat) and z3.is_app(v.ninf) and v.ninf.num_args() > 0 and len(pl) == 1:
+                        extra.append(v.ninf)  # extended-real spec: either component triggers
                 pats.append(z3.MultiPattern(*terms) if len(terms) > 1 else terms[0])
+                pats.extend(extra)
         if pats:
             return SBool(z3.ForAll(consts, body, patterns=pats))
         return SBool(z3.ForAll(consts, body))
@@ -262,6 +266,71 @@ def d_ite(E, fv, st, node, prog):
 def d_unfold(E, fv, st, node, prog):
     for a in node.args:
         E.unfold(fv, st, a)
+    return NONE
+
+
+def d_unfold_forall(E, fv, st, node, prog):
+    """unfold_forall(lambda a: f(.., a, ..)): the definitional equation of a NON-recursive spec for all
+    integer a (pattern: the application itself)"""
+    lam = node.args[0]
+    names = [a.arg for a in lam.args.args]
+    call = lam.body
+    if not (isinstance(call, ast.Call) and isinstance(call.func, ast.Name) and call.func.id in E.db.specs):
+        _err("unfold_forall expects lambda ..: spec(...)")
+    sd = E.db.specs[call.func.id]
+    for stn in sd.body:
+        for n in ast.walk(stn):
+            if isinstance(n, ast.Call) and isinstance(n.func, ast.Name) and n.func.id == sd.name:
+                _err("unfold_forall on a recursive spec")
+    consts = [fv.fresh_int(n) for n in names]
+    s = st.fork()
+    s.assumes = st.assumes
+    for n, c in zip(names, consts):
+        s.env[n] = SInt(c)
+    argvals = [fv.ev(a, s, False) for a in call.args]
+    app = E.spec_app(fv, s, sd, argvals)
+    body = E.spec_body_value(fv, s, sd, argvals)
+    eq = fv.to_bool(fv.compare(s, ast.Eq(), app, body, call, False))
+    if isinstance(app, SFloat):
+        eq = z3.And(app.v == body.v, app.ninf == body.ninf)
+        pat = app.v
+    else:
+        pat = app.e
+    st.assume(z3.ForAll(consts, eq, patterns=[pat]))
+    return NONE
+
+
+def d_instantiate(E, fv, st, node, prog):
+    """instantiate(P(args), v): P an inline spec whose body is `forall_arrN(lambda X: B, ...)`;
+    assumes the valid implication  P(args) ==> B[X := v]"""
+    call = node.args[0]
+    if not (isinstance(call, ast.Call) and isinstance(call.func, ast.Name) and call.func.id in E.db.specs):
+        _err("instantiate expects an inline spec application")
+    sd = E.db.specs[call.func.id]
+    if not getattr(sd, "inline", False) or len(sd.body) != 1 or not isinstance(sd.body[0], ast.Return):
+        _err("instantiate: spec must be inline with a single return")
+    q = sd.body[0].value
+    if not (isinstance(q, ast.Call) and isinstance(q.func, ast.Name) and q.func.id in ("forall_arr1", "forall_arr2")):
+        _err("instantiate: body must be forall_arr1/2")
+    lam = q.args[0]
+    argvals = [fv.ev(a, st, False) for a in call.args]
+    whole = fv.to_bool(E.spec_app(fv, st, sd, argvals))
+    from .engine import State
+
+    s = State()
+    s.old = st.old
+    s.funcs = st.funcs
+    s.assumes = st.assumes
+    s.guards = list(st.guards)
+    s.heap = st.heap
+    for v, (n, ty) in zip(argvals, sd.params):
+        s.env[n] = E.spec_param_value(fv, st, v, ty)
+    wit = fv.ev(node.args[1], st, False)
+    if isinstance(wit, SArr):
+        wit = fv.arr_value(st, wit)
+    s.env[lam.args.args[0].arg] = wit
+    inst = fv.to_bool(fv.ev(lam.body, s, False))
+    st.assume(z3.Implies(whole, inst))
     return NONE
 
 
@@ -441,6 +510,8 @@ BUILTINS = {
     "at": d_at,
     "ite": d_ite,
     "unfold": d_unfold,
+    "unfold_forall": d_unfold_forall,
+    "instantiate": d_instantiate,
     "compute": d_compute,
     "assert_": d_assert,
     "isnan": d_isnan,
